@@ -1,7 +1,7 @@
 """C15 — the genomic distance behaves as a metric on signatures."""
 import itertools
 
-from core import nats, exc_kind
+from core import nats, exc_kind, safe_check
 from props.c02 import bits, _arr, DTYPES, MAXV, gen_pair, rand_sorted
 
 PROPS = ('GambitV.Props.C15', 'GambitV.C15')
@@ -56,7 +56,7 @@ def run(ctx):
 	rng = ctx.rng
 
 	def sub(case, tag, nontrivial=False):
-		lines, pf = check(ctx, case)
+		lines, pf = safe_check(check, ctx, case)
 		ctx.submit(case, lines, nontrivial=nontrivial, tags=[tag], pyfails=pf)
 
 	# known finding witness: |A| = 10128763, |B| = 10128762, |A∪B| = 14897820
